@@ -1,5 +1,7 @@
 import Gaftools.Props.C07
+import Gaftools.Props.TieA
 #print axioms Gaftools.C07.write_segs
 #print axioms Gaftools.C07.write_links
 #print axioms Gaftools.C07.write_links_subset
 #print axioms Gaftools.C07.read_write_read
+#print axioms Gaftools.TieA.eDir_gen_eq_model
